@@ -675,8 +675,18 @@ package gts
 //@ func (v Expandable) Expand(i, n int) (out any)
 //@   trusted interface contract: metadata hooks do not write to existing memory
 //@   assigns nothing
+//@ spec func sliceHook(info any, start int, end int) any uninterpreted
 //@ func (v Sliceable) Slice(start, end int) (out any)
-//@   trusted interface contract: metadata hooks do not write to existing memory
+//@   trusted interface contract: metadata hooks do not write to existing memory and are deterministic functions of the receiver and the window
+//@   ensures out == sliceHook(v, start, end)
+//@   assigns nothing
+
+// The metadata of a slice: the hook of a Sliceable info value applied to the window, any other
+// info value unchanged.
+//@ spec func slicedInfo(info any, start int, end int) any = ite(is(info, Sliceable), sliceHook(info, start, end), info)
+//@ func trySlice(info any, start, end int) (out any)
+//@   prop C03
+//@   ensures out == slicedInfo(info, start, end)
 //@   assigns nothing
 
 // oldSeq(s): what s exposes was allocated before the call.
@@ -797,14 +807,17 @@ package gts
 //@   loop 2: invariant forall k in 0..i: gg[k] == ff[indices[k]]
 //@   loop 2: decreases len(indices) - i
 
+//@ spec func topoInfo(info any, t int) any uninterpreted
 //@ func (v withTopology) WithTopology(t Topology) (out Sequence)
-//@   trusted interface contract assumed for implementations outside package gts (GenBank)
+//@   trusted interface contract assumed for implementations outside package gts (GenBank): residues and features kept, the metadata a deterministic function of the old metadata and the topology
 //@   ensures !isnil(out) && sameslice(bytesOf(out), bytesOf(v)) && sameslice(featsOf(out), featsOf(v))
+//@   ensures infoOf(out) == topoInfo(infoOf(v), int(t))
 //@   assigns nothing
 //@ func WithTopology(seq Sequence, t Topology) (out Sequence)
 //@   prop C11 C03
 //@   requires !isnil(seq)
 //@   ensures !isnil(out) && sameslice(bytesOf(out), bytesOf(seq)) && sameslice(featsOf(out), featsOf(seq))
+//@   ensures info: infoOf(out) == infoOf(seq) || infoOf(out) == topoInfo(infoOf(seq), int(t))
 //@   assigns nothing
 
 //@ func (props Props) Clone() (ret Props)
@@ -930,6 +943,7 @@ package gts
 //@   ensures !isnil(out) && len(bytesOf(out)) == end - start && fresh(bytesOf(out))
 //@   ensures window: forall k in 0..end-start: bytesOf(out)[k] == old(bytesOf(seq)[start+k])
 //@   ensures count: len(featsOf(out)) <= len(featsOf(seq)) && fresh(featsOf(out))
+//@   ensures info: infoOf(out) == slicedInfo(old(infoOf(seq)), start, end) || infoOf(out) == topoInfo(slicedInfo(old(infoOf(seq)), start, end), 0)
 //@   ghost JJ(k int) int
 //@   ghost_final JJ(k) := Filter_J(k)
 //@   ensures wiring: forall k in 0..len(featsOf(out)): 0 <= JJ(k) && JJ(k) < len(featsOf(seq)) && featsOf(out)[k].Key == old(featsOf(seq)[JJ(k)].Key) &&
@@ -949,8 +963,18 @@ package gts
 //@   requires ite(start < 0, start + len(bytesOf(seq)), start) <= ite(end < 0, end + len(bytesOf(seq)), end)
 //@   ensures !isnil(out) && len(bytesOf(out)) == ite(end < 0, end + len(bytesOf(seq)), end) - ite(start < 0, start + len(bytesOf(seq)), start) && fresh(bytesOf(out))
 //@   ensures window: forall k in 0..len(bytesOf(out)): bytesOf(out)[k] == old(bytesOf(seq)[ite(start < 0, start + len(bytesOf(seq)), start) + k])
+//@   ensures info: infoOf(out) == slicedInfo(old(infoOf(seq)), ite(old(start) < 0, old(start) + len(bytesOf(seq)), old(start)), ite(old(end) < 0, old(end) + len(bytesOf(seq)), old(end))) ||
+//@      infoOf(out) == topoInfo(slicedInfo(old(infoOf(seq)), ite(old(start) < 0, old(start) + len(bytesOf(seq)), old(start)), ite(old(end) < 0, old(end) + len(bytesOf(seq)), old(end))), 0)
+//@   ghost JJ(k int) int
+//@   ghost_final JJ(k) := Filter_J(k)
+//@   ensures wiring: forall k in 0..len(featsOf(out)): 0 <= JJ(k) && JJ(k) < len(featsOf(seq)) && featsOf(out)[k].Key == old(featsOf(seq)[JJ(k)].Key) &&
+//@      (featsOf(out)[k].Key != "source" ==> valOf(featsOf(out)[k].Loc) ==
+//@        expId(expId(valOf(old(featsOf(seq)[JJ(k)].Loc)), ite(old(end) < 0, old(end) + len(bytesOf(seq)), old(end)), ite(old(end) < 0, old(end) + len(bytesOf(seq)), old(end)) - len(bytesOf(seq))), 0, 0 - ite(old(start) < 0, old(start) + len(bytesOf(seq)), old(start))))
 //@   assigns nothing
 //@   loop 1: invariant fresh(ff)
+//@   loop 1: invariant forall k in 0..len(ff): 0 <= Filter_J(k) && Filter_J(k) < len(featsOf(seq)) && ff[k].Key == old(featsOf(seq)[Filter_J(k)].Key)
+//@   loop 1: invariant forall k in i..len(ff): ff[k].Loc == old(featsOf(seq)[Filter_J(k)].Loc)
+//@   loop 1: invariant forall k in 0..i: ff[k].Key != "source" ==> valOf(ff[k].Loc) == expId(expId(valOf(old(featsOf(seq)[Filter_J(k)].Loc)), end, end - len(bytesOf(seq))), 0, 0 - start)
 //@   loop 1: decreases len(ff) - i
 
 //@ func Slice@wrap(seq Sequence, start, end int) (out Sequence)
